@@ -32,6 +32,17 @@ def op(name, a=0, b=0, c=0):
     return (name, a, b, c)
 
 
+@st.composite
+def dirty_wrap(draw, strat):
+    """one case in five initialises its objects in memory that is not zero (cfg dirty = byte pattern 0xA5 / 0xFF / 0x01 / 0x80):
+    a stack slot, a recycled heap chunk, an object destroyed and initialised again"""
+    case = draw(strat)
+    if draw(ints(0, 4)) == 0:
+        case["cfg"] = dict(case["cfg"], dirty=draw(ints(1, 4)))
+        case["classes"] = list(case.get("classes", [])) + ["dirty_object_memory"]
+    return case
+
+
 # "any number of fibers": sizes of the anonymous crowds some cases add (waiters on one mutex, participants of one barrier,
 # yielders on one thread); around the powers of two a narrower counter or a fixed-size batch would break at
 CROWD_SIZES = [40, 130, 260, 300, 1030, 1100, 2100, 33000, 66000, 70000]
@@ -119,6 +130,10 @@ def sem_case(draw, tier):
     threads = draw(ints(1, T(tier, 3, 4)))
     ns = draw(ints(1, 2))
     inits = [draw(ints(0, 3)) for _ in range(ns)]
+    big = draw(ints(0, 4)) == 0
+    if big:
+        # a semaphore that already holds many units: value just below a power of two the posts then cross
+        inits[0] = 2 ** draw(st.sampled_from([8, 15, 16, 24, 30])) - draw(ints(0, 3))
     nf = draw(ints(2, T(tier, 6, 10)))
     uposts, uwaits, paired = [0] * ns, [0] * ns, [False] * ns
     fibers = []
@@ -156,7 +171,7 @@ def sem_case(draw, tier):
     cfg = {"nsem": ns}
     for s in range(ns):
         cfg["sem_init%d" % s] = inits[s]
-    classes = ["threads=%d" % threads, "late_poster" if poster else "no_late_poster"]
+    classes = ["threads=%d" % threads, "late_poster" if poster else "no_late_poster", "value_near_2^k" if big else "small_value"]
     return {"harness": "sem", "threads": threads, "cfg": cfg, "fibers": fibers, "classes": classes}
 
 
@@ -185,7 +200,15 @@ def rwlock_case(draw, tier):
             else:
                 ops.append(op("work", draw(ints(1, 5))))
         fibers.append(ops)
-    return {"harness": "rwlock", "threads": threads, "cfg": {"nrw": nl}, "fibers": fibers, "classes": ["threads=%d" % threads, bias]}
+    case = {"harness": "rwlock", "threads": threads, "cfg": {"nrw": nl}, "fibers": fibers, "classes": ["threads=%d" % threads, bias]}
+    if draw(ints(0, 29)) == 0:
+        # any number of simultaneous read holds
+        n = draw(st.sampled_from(CROWD_SIZES + [4095, 4096, 4097]))
+        f = fibers[draw(ints(0, nf - 1))]
+        f.insert(draw(ints(0, len(f))), op("rdhold", draw(ints(0, nl - 1)), n))
+        case["classes"].append(crowd_class(n))
+        case.update(crowd_limits(n))
+    return case
 
 
 # --------------------------------------------------------------------------- C12
@@ -360,13 +383,16 @@ def chan_case(draw, tier):
     n = total
     while n > 0:
         b = draw(ints(1, n))
-        rops.append(op("recv", 0, b, draw(ints(0, 2))))
+        # blocking receive, or the try_receive entry point polled with yield
+        rops.append(op("recv" if draw(ints(0, 2)) else "tryrecv", 0, b, draw(ints(0, 2))))
         n -= b
         rops.extend(small_ops(draw, 1))
     pos = draw(ints(0, len(fibers)))
     fibers.insert(pos, rops)
     names = {0: "bounded_signal", 1: "bounded_spin", 2: "unbounded", 3: "unbounded_sp", 5: "unbounded_spin"}
     classes = ["threads=%d" % threads, names[ctype], "cap=%d" % (1 << cap) if ctype in (0, 1) else "cap=inf"]
+    if any(o[0] == "tryrecv" for o in rops):
+        classes.append("try_receive")
     return {"harness": "chan", "threads": threads, "cfg": {"nchan": 1, "chan_type0": ctype, "chan_cap0": cap}, "fibers": fibers, "classes": classes}
 
 
@@ -437,8 +463,10 @@ DUR_US = [0, 1, 999, 1000, 4999, 5000, 7000, 3000, 3000, 3000, 12000, 25000]
 def sleep_case(draw, tier):
     threads = draw(ints(1, T(tier, 3, 4)))
     nf = draw(ints(1, T(tier, 8, 12)))
-    long_one = draw(st.sampled_from([None, None, None, (1, 1), (2, 999999), (1, 0)]))
-    g = draw(ints(1, 4)) if long_one is None else draw(ints(40, 120))
+    long_one = draw(st.sampled_from([None, None, None, None, None, None, (1, 1), (2, 999999), (1, 0), (1, 1), (2, 999999), (1, 0),
+                                     # around 2^32 microseconds, and far beyond (the virtual clock then advances 50 000 - 400 000 ticks of 5 ms per quiescence)
+                                     (4294, 967295), (4294, 967296), (4295, 0), (8590, 5), (17180, 0)]))
+    g = draw(ints(1, 4)) if long_one is None else draw(ints(40, 120)) if long_one[0] < 1000 else draw(ints(50000, 400000))
     backlog = draw(st.booleans())
     fibers = []
     shared = draw(st.sampled_from(DUR_US))
@@ -456,11 +484,12 @@ def sleep_case(draw, tier):
                 ops.append(op("sleep", kind, 0, us))
         fibers.append(ops)
     if long_one is not None:
-        fibers.append([op("sleep", draw(ints(0, 2)), long_one[0], long_one[1])])
+        # (usleep takes a 32-bit argument: durations of an hour go through fiber_sleep, nanosleep and sleep)
+        fibers.append([op("sleep", draw(st.sampled_from([0, 2, 3])) if long_one[0] >= 1000 else draw(ints(0, 2)), long_one[0], long_one[1])])
     # finite tickers: other fibers keep running while the rest sleeps
     for _ in range(draw(ints(0, 2))):
         fibers.append([op("yield", draw(ints(1, 30)))])
-    classes = ["threads=%d" % threads, "backlog" if backlog else "no_backlog", "seconds" if long_one else "sub_second"]
+    classes = ["threads=%d" % threads, "backlog" if backlog else "no_backlog", "sub_second" if not long_one else "seconds" if long_one[0] < 1000 else "hours"]
     return {"harness": "sleep", "threads": threads, "cfg": {"sleepers": 1, "ticks_per_quiescence": g}, "fibers": fibers, "classes": classes}
 
 
@@ -487,6 +516,13 @@ def yield_case(draw, tier):
         pos = draw(ints(0, len(fibers[by])))
         fibers[by].insert(pos, op("spawn", d))
     classes = ["threads=%d" % threads, "fibers>=3" if nf >= 3 else "fibers=2", "deferred_spawn" if deferred else "all_at_start"]
+    if n_initial >= 3 and draw(ints(0, 5)) == 0:
+        # a fiber that keeps yielding while another fiber is blocked in fiber_join on it
+        t = draw(ints(1, n_initial - 1))
+        j = draw(ints(0, t - 1))
+        fibers[t] = [op("target", -1)] + fibers[t] + [op("yield", draw(st.sampled_from([60, 120, 200])))]
+        fibers[j].insert(draw(ints(0, min(1, len(fibers[j])))), op("join", t))
+        classes.append("yielding_while_joined")
     if draw(ints(0, 11)) == 0:
         # many ready fibers on the thread: the first fiber starts a crowd of yielders before anything else; the program
         # fibers then yield long enough for several rounds of the whole crowd
@@ -584,7 +620,7 @@ def mixed_case(draw, tier, storm=False):
             total_io = left
             while left > 0:
                 n = draw(ints(1, left))
-                w.append(op("wr", 0, n, draw(ints(0, 1)) | (_chunk_for(draw, n) << 4)))
+                w.append(op("iowr", 0, n, draw(ints(0, 1)) | (_chunk_for(draw, n) << 4)))   # ("wr" is the rwlock op in mixed programs)
                 w.extend(small_ops(draw, 1))
                 left -= n
             w.append(op("wclose", 0))
@@ -629,12 +665,13 @@ SPECS["C12"] = rt_spec("C12", one_part("barrier", barrier_case), {"quick": 30000
 def c18_parts(tier):
     # the per-descriptor locks of the event layer are fiber spinlocks too (anchor src/fiber_event_native.c): descriptor programs,
     # in particular close racing with a fiber registering on the same descriptor, exercise lock/unlock pairing there
-    return [dict(one_part("spin", spin_case)(tier)[0], share=0.75),
-            {"name": "fd_locks", "strategy": io_case(tier), "nsched": T(tier, 24, 96), "args": ["--tso", 0, "--soft", 3000000, "--hard", 30000000], "share": 0.25}]
+    return [dict(one_part("spin", spin_case)(tier)[0], share=0.65),
+            {"name": "fd_locks", "strategy": io_case(tier, shapes=("close_under_waiter", "close_under_waiter", "accept", "streams")), "nsched": T(tier, 24, 96),
+             "args": ["--tso", 0, "--soft", 3000000, "--hard", 30000000], "share": 0.35}]
 SPECS["C18"] = rt_spec("C18", c18_parts, {"quick": 30000, "thorough": 150000},
     "(a) lock/trylock sections with non-yielding bodies over 1-2 spinlocks whose ticket/users words start at 0, 2^31-1 or just below 2^32 (wrap-around); " + SCHED_TXT +
     "Oracle: occupancy ghost, the k-th acquisition is served ticket start+k (FIFO ticket order, trylock takes a ticket too), trylock and the holder are never "
-    "suspended, ticket == users at the end. (b) a quarter of the budget: the descriptor programs of C08 (the event layer guards every descriptor with a fiber spinlock; "
+    "suspended, ticket == users at the end. (b) a third of the budget: the descriptor programs of C08, biased to descriptors closed under a waiter and descriptor numbers reused afterwards (the event layer guards every descriptor with a fiber spinlock; "
     "close racing with a registering fiber on 2-3 kernel threads), oracle there: every blocked fiber is resumed, no thread spins for ever on a descriptor lock. "
     "Non-trivial = a contender spun or a trylock failed (a), a call really suspended its fiber (b).")
 SPECS["C05"] = rt_spec("C05", one_part("cond", cond_case), {"quick": 30000, "thorough": 150000},
@@ -846,6 +883,14 @@ def ring_case(draw, tier):
         fibers.append([op("tpush", draw(ints(2, 10)), draw(ints(0, 2)))])
     for _ in range(npop):
         fibers.append([op("tpop", draw(ints(2, 10)), draw(ints(0, 2)))])
+    blocking = draw(ints(0, 4)) == 0
+    if blocking:
+        # the waiting entry points push()/pop(): pushes and pops balance, so nobody waits for ever
+        total = draw(ints(2, 24))
+        def split(n, k):
+            cuts = sorted(draw(ints(0, n)) for _ in range(k - 1))
+            return [b - a for a, b in zip([0] + cuts, cuts + [n])]
+        fibers = [[op("bpush", c, draw(ints(0, 2)))] for c in split(total, npush) if c] + [[op("bpop", c, draw(ints(0, 2)))] for c in split(total, npop) if c]
     order = draw(st.permutations(list(range(len(fibers)))))
     fibers = [fibers[i] for i in order]
     # lifetime position of the indices: fresh, or just below a power-of-two boundary they are about to cross
@@ -853,7 +898,7 @@ def ring_case(draw, tier):
     if draw(ints(0, 2)) == 0:
         base = 2 ** draw(st.sampled_from(POW2_BOUNDARIES)) - draw(ints(0, 2 << cap))
     return {"harness": "ring", "threads": 1, "cfg": {"cap_log2": cap, "index_base": base}, "fibers": fibers,
-            "classes": ["cap=%d" % (1 << cap), "pushers=%d" % npush, "poppers=%d" % npop, "index_base=%s" % ("0" if not base else "near_2^%d" % (base - 1).bit_length())]}
+            "classes": ["cap=%d" % (1 << cap), "pushers=%d" % npush, "poppers=%d" % npop, "blocking_entry_points" if blocking else "try_entry_points", "index_base=%s" % ("0" if not base else "near_2^%d" % (base - 1).bit_length())]}
 
 
 @st.composite
@@ -924,13 +969,15 @@ def hazard_case(draw, tier):
 
 def c02_parts(tier):
     return [dict(ds_part("deque", deque_case)(tier), share=0.5),
-            {"name": "storm", "strategy": mixed_case(tier, storm=True), "nsched": T(tier, 32, 160), "args": ["--tso", T(tier, 0, 1)], "share": 0.3},
-            {"name": "mixed", "strategy": mixed_case(tier), "nsched": T(tier, 32, 160), "args": ["--tso", T(tier, 0, 1)], "share": 0.2}]
+            {"name": "storm", "strategy": mixed_case(tier, storm=True), "nsched": T(tier, 32, 160), "args": ["--tso", T(tier, 0, 1)], "share": 0.15},
+            {"name": "mixed", "strategy": mixed_case(tier), "nsched": T(tier, 32, 160), "args": ["--tso", T(tier, 0, 1)], "share": 0.2},
+            # join/tryjoin/detach hand-shakes: the paths on which a waker polls with yield (and may be stolen) before it makes the peer runnable
+            {"name": "join", "strategy": join_case(tier), "nsched": T(tier, 32, 160), "args": ["--tso", T(tier, 0, 1)], "share": 0.15}]
 SPECS["C02"] = Spec("C02", "runner_rt", c02_parts, {"quick": 30000, "thorough": 150000},
     rule=("(a) one owner thread with generated push bursts (1..520, crossing the 2^8->2^9->2^10 growth) and pops against 1-3 thieves stealing a generated number of times; classes: "
           "single-element owner/thief races, growth under steal, mixed; " + DS_SCHED + "Oracle: every value handed out was pushed, at most once; after a final owner drain every pushed value "
           "was handed out exactly once; pop_bottom may say EMPTY only if all pushed values were taken by operations already begun; ABORT is a no-op; shadow heap on stale arrays. "
-          "(b) whole-runtime create/yield/lock storms and mixed programs (every wake-up path: mutex, semaphore, rwlock, condition, channel, signal, join, sleep) on 2-3(4) kernel threads with the pending-wake ghost and the owner-only-push ghost: a fiber made runnable is switched in exactly once per wake-up and nothing is "
+          "(b) whole-runtime create/yield/lock storms, mixed programs (every wake-up path: mutex, semaphore, rwlock, condition, channel, signal, join, sleep) and join/tryjoin/detach programs on 2-3(4) kernel threads with the pending-wake ghost and the owner-only-push ghost: a fiber made runnable is switched in exactly once per wake-up and nothing is "
           "left queued at quiescence. Non-trivial = (a) a successful steal together with an aborted CAS or a growth, (b) >= 2 kernel threads and at least one steal."),
     assumptions=DS_ASSUME + RT_ASSUME[2:], technique=DS_TECH + "; runtime part: pending-wake ghost over Hypothesis-generated fiber programs")
 SPECS["C13"] = ds_spec("C13", lambda tier: [ds_part("mpmc", mpmc_case)(tier)], {"quick": 30000, "thorough": 150000},
@@ -968,9 +1015,9 @@ SPECS["C20"] = Spec("C20", "runner_rt", c20_parts, {"quick": 30000, "thorough": 
 
 # --------------------------------------------------------------------------- C08
 @st.composite
-def io_case(draw, tier):
+def io_case(draw, tier, shapes=("streams", "streams", "streams", "accept", "badfd", "close_under_waiter")):
     threads = draw(ints(1, T(tier, 3, 4)))
-    shape = draw(st.sampled_from(["streams", "streams", "streams", "accept", "badfd", "close_under_waiter"]))
+    shape = draw(st.sampled_from(list(shapes)))
     fibers = []
     cfg = {}
     classes = ["threads=%d" % threads, shape]
@@ -980,6 +1027,13 @@ def io_case(draw, tier):
         if draw(st.booleans()):
             cfg["sndbuf"] = draw(st.sampled_from([1024, 4096, 16384]))
             classes.append("small_sndbuf")
+        if draw(ints(0, 5)) == 0:
+            # process configuration: soft descriptor limit below the hard one while the runtime starts, raised afterwards;
+            # the streams get descriptor numbers around / above the initial soft limit
+            soft = draw(st.sampled_from([32, 64, 100]))
+            cfg["rlimit_soft"] = soft
+            cfg["fd_floor"] = soft + draw(ints(-3, 40))
+            classes.append("fds_above_initial_soft_limit")
         for s_ in range(ns):
             typ = draw(ints(0, 1))
             cfg["stream_type%d" % s_] = typ
@@ -991,7 +1045,14 @@ def io_case(draw, tier):
                 a = s_ * 2 + d
                 if shape == "close_under_waiter" and s_ == 0 and d == 0:
                     # nobody writes: the reader blocks until another fiber closes its descriptor
-                    fibers.append([op("rd", a, 100, draw(ints(0, 4)))])
+                    # afterwards the reader goes on using descriptors: fresh socketpairs get the number that was just given back
+                    # (only the reader: the closer cannot know when the reader has stopped using the old number)
+                    tail = []
+                    for _ in range(draw(ints(0, 2))):
+                        tail += [op("yield", draw(ints(1, 3))), op("echopair", draw(ints(1, 40)))]
+                    if tail:
+                        fibers.append([op("yield", draw(ints(10, 40)))])   # somebody to switch to in between
+                    fibers.append([op("rd", a, 100, draw(ints(0, 4)))] + tail)
                     fibers.append(small_ops(draw, 2) + [op("yield", draw(ints(1, 4))), op("rclose", a)])
                     continue
                 total = draw(st.sampled_from([1, 10, 500, 5000, 70000, 300000])) if tier == "thorough" or draw(ints(0, 3)) else draw(st.sampled_from([1, 10, 500, 5000]))
